@@ -90,3 +90,4 @@ Ltac slice_norm :=
   | rewrite go_len_nil
   | rewrite go_len_lenN
   | progress go_decide ].
+
